@@ -270,6 +270,25 @@ func propC12(c model.Case) hh.Verdict {
 			}
 		}
 	}
+	// Validate: the Preprocess function of every place its node governs was called, once, with that place's address
+	if c.Exec.Mode == "validate" {
+		for id, n := range nodes {
+			if n.Kind != model.KPre || c12Canon[id] != id {
+				continue
+			}
+			for _, o := range occ[id] {
+				calls := 0
+				for _, ev := range res.Log {
+					if ev.Kind == "pre" && ev.Node == id && ev.ArgPtr == o.addr {
+						calls++
+					}
+				}
+				if calls != 1 {
+					return hh.Fail("Preprocess n%d governs the value at %q, but its function was called %d times with that value's address (expected once) [validate]", id, o.path, calls)
+				}
+			}
+		}
+	}
 	// a node whose Catch value was used is a node like any other afterwards: on success its PostTransforms ran
 	// (the documentation: whatever triggers the catch, execution continues with the PostTransforms)
 	if res.NoIssues() {
